@@ -59,6 +59,9 @@ type matcherCompiler struct {
 	// All dots found during match compilation.
 	dots []token.Pos
 
+	// Number of metavariable matchers compiled so far.
+	metavars int
+
 	patchStart, patchEnd token.Pos
 }
 
